@@ -117,13 +117,19 @@ Sign(f, mf) == /\ pc = "keyed" /\ flow = "sign"
                /\ pc' = "signed"
                /\ UNCHANGED <<flow, key, tamper, vpk, vsig, vmsg, verdict, cverdict, expV, mnV>>
 
+(* "twinkey": the compressed ECDSA public key with the same x and the other y parity - a valid key of somebody else
+   (presented after the signer's own key has been used);  "offcurve": 33 bytes of the key kind whose x is not on the
+   curve - not a key at all, so nothing verifies under it *)
 TamperKinds(c) == {<<"none", "-">>, <<"msgbit", "-">>, <<"sigbit", "-">>, <<"otherkey", "-">>}
                   \cup {<<"othercurve", c2>> : c2 \in Curves \ {c}}
+                  \cup (IF c \in {"sp", "p2"} THEN {<<"twinkey", "-">>, <<"offcurve", "-">>} ELSE {})
 
 Tamper(k) == /\ pc = "signed" /\ k \in TamperKinds(CurveOf(key))
              /\ tamper' = k
              /\ vpk'  = CASE k[1] = "otherkey"   -> Pk(Sk(CurveOf(key), 2))
                           [] k[1] = "othercurve" -> Pk(Sk(k[2], 1))
+                          [] k[1] = "twinkey"    -> <<"pk", CurveOf(key), 101>>      \* key ids: 1 signer, 2 other, 101 twin of the signer, 201 off-curve
+                          [] k[1] = "offcurve"   -> <<"pk", CurveOf(key), 201>>
                           [] OTHER               -> Pk(key)
              /\ vsig' = IF k[1] = "sigbit" THEN Forged(sig) ELSE sig
              /\ vmsg' = IF k[1] = "msgbit" THEN Msg(2) ELSE Msg(1)
@@ -213,7 +219,7 @@ Derive(c, e1, p1, e2, p2) ==
 ---------------------------------------------------------------------------
 Next == \/ \E c \in Curves : Gen(c)
         \/ \E f \in Forms, mf \in MsgForms : Sign(f, mf)
-        \/ \E k \in TamperKinds("ed") \cup TamperKinds("bl") : Tamper(k)
+        \/ \E k \in TamperKinds("ed") \cup TamperKinds("bl") \cup TamperKinds("sp") : Tamper(k)
         \/ VerifyPrefix \/ VerifyCrypto \/ CheckSignature
         \/ \E o \in UNION {ExportOpts(c) : c \in Curves} : Export(o)
         \/ \E p \in PassIds \cup {0} : Import(p)
